@@ -171,6 +171,16 @@ def sstep (KC : Codec K) (VC : Codec V) (m : Store) (op : SOp K V) (F : SFaults)
 
 /-! ## Specification: the raw operations under the codecs -/
 
+/-- The decodable prefix of per-entry decode results. -/
+def goodPrefix (rs : List (Except SErr (K × V))) : List (K × V) :=
+  (rs.takeWhile Except.isOk).filterMap Except.toOption
+
+/-- The first decode error, if any. -/
+def firstErr (rs : List (Except SErr (K × V))) : Option SErr :=
+  match rs.dropWhile Except.isOk with
+  | .error e :: _ => some e
+  | _ => none
+
 def sspec (KC : Codec K) (VC : Codec V) (m : Store) : SOp K V → Store × SOut K V
   | .get k =>
     match KC.enc k with
@@ -197,11 +207,8 @@ def sspec (KC : Codec K) (VC : Codec V) (m : Store) : SOp K V → Store × SOut 
   | .iterate pfx bwd stop =>
     -- declarative: the longest prefix of decodable entries, cut at the callback's stop
     let rs := (m.entries pfx bwd).map (decEntry KC VC noSFaults 0)
-    let good := (rs.takeWhile Except.isOk).filterMap Except.toOption
-    if stop ≠ 0 ∧ stop ≤ good.length then (m, .iter (good.take stop) none)
-    else match rs.dropWhile Except.isOk with
-      | .error e :: _ => (m, .iter good (some e))
-      | _ => (m, .iter good none)
+    if 0 < stop ∧ stop ≤ (goodPrefix rs).length then (m, .iter ((goodPrefix rs).take stop) none)
+    else (m, .iter (goodPrefix rs) (firstErr rs))
 
 /-! ## Concrete key codec of the correspondence run: `uint16`, 2 bytes big-endian; 0xFFFF is
 unencodable, byte strings of another length (or holding 0xFFFF) do not decode. -/
